@@ -415,3 +415,154 @@ Proof.
   - unfold knows, absorb. cbn [n_known existsb]. rewrite Nat.eqb_refl. reflexivity.
   - intros y Hy. unfold knows, absorb in *. cbn [n_known existsb]. rewrite Hy. apply orb_true_r.
 Qed.
+
+(* ---------- progress towards quiescence ---------- *)
+(* every acknowledged version is known by its origin *)
+Definition OwnKnown (s : cstate) : Prop :=
+  forall x vx, nth_error (c_log s) x = Some vx ->
+  exists nd, nth_error (c_nodes s) (Z.to_nat (v_actor vx)) = Some nd /\ knows nd x = true.
+
+Lemma knows_absorb nd rs x y : knows (absorb nd rs x) y = Nat.eqb y x || knows nd y.
+Proof. reflexivity. Qed.
+
+(* a step never makes a node forget a version, and never removes a node *)
+Lemma cstep_knows_mono s o i nd :
+  nth_error (c_nodes s) i = Some nd ->
+  exists nd', nth_error (c_nodes (cstep s o)) i = Some nd' /\ forall y, knows nd y = true -> knows nd' y = true.
+Proof.
+  intros Hnd.
+  assert (Hsame : exists nd', nth_error (c_nodes s) i = Some nd' /\ forall y, knows nd y = true -> knows nd' y = true)
+    by (exists nd; split; [exact Hnd|auto]).
+  destruct o as [i0 rs|i0 j x extra]; cbn [cstep].
+  - destruct (nth_error (c_nodes s) i0) as [n0|] eqn:En; [|exact Hsame]. cbn [c_nodes].
+    destruct (Nat.eq_dec i i0) as [->|Hne].
+    + rewrite (nth_set_nth_eq _ _ _ _ En). eexists. split; [reflexivity|].
+      intros y Hy. rewrite knows_absorb. rewrite Hnd in En. inversion En; subst n0. rewrite Hy. apply orb_true_r.
+    + rewrite nth_set_nth_neq by exact Hne. exists nd. split; [exact Hnd|auto].
+  - destruct (nth_error (c_nodes s) i0) as [n0|] eqn:En; [|exact Hsame].
+    destruct (nth_error (c_nodes s) j) as [m|]; [|exact Hsame].
+    destruct (nth_error (c_log s) x) as [vx|]; [|exact Hsame].
+    destruct (knows m x && negb (knows n0 x)); [|exact Hsame]. cbn [c_nodes].
+    destruct (Nat.eq_dec i i0) as [->|Hne].
+    + rewrite (nth_set_nth_eq _ _ _ _ En). eexists. split; [reflexivity|].
+      intros y Hy. rewrite knows_absorb. rewrite Hnd in En. inversion En; subst n0. rewrite Hy. apply orb_true_r.
+    + rewrite nth_set_nth_neq by exact Hne. exists nd. split; [exact Hnd|auto].
+Qed.
+
+Lemma cstep_own s o : OwnKnown s -> OwnKnown (cstep s o).
+Proof.
+  intros Hown x vx Hx.
+  destruct (log_ext_step s o) as [e He].
+  destruct (nth_error (c_log s) x) as [vx0|] eqn:Eold.
+  - (* an old version: its origin still knows it *)
+    assert (vx0 = vx).
+    { rewrite He in Hx. rewrite nth_error_app1 in Hx by (apply nth_error_Some; congruence). congruence. }
+    subst vx0. destruct (Hown x vx Eold) as [nd [Hnd Hk]].
+    destruct (cstep_knows_mono s o _ nd Hnd) as [nd' [Hnd' Hmono]].
+    exists nd'. split; [exact Hnd'|apply Hmono, Hk].
+  - (* the version this step appended: only Local does that *)
+    destruct o as [i rs|i j y extra]; cbn [cstep] in *.
+    + destruct (nth_error (c_nodes s) i) as [n0|] eqn:En.
+      * cbn [c_log c_nodes] in *. apply nth_error_None in Eold.
+        assert (Hxl : x = length (c_log s)).
+        { assert (x < length (c_log s ++ [mkVer (Z.of_nat i) (next_version (Z.of_nat i) (c_log s)) rs]))%nat
+            by (apply nth_error_Some; congruence).
+          rewrite app_length in H. cbn in H. lia. }
+        subst x. rewrite nth_error_app2, Nat.sub_diag in Hx by lia. cbn in Hx. inversion Hx; subst vx. cbn [v_actor].
+        rewrite Nat2Z.id, (nth_set_nth_eq _ _ _ _ En). eexists. split; [reflexivity|].
+        rewrite knows_absorb, Nat.eqb_refl. reflexivity.
+      * rewrite Eold in Hx. discriminate.
+    + assert (c_log (match nth_error (c_nodes s) i with
+                     | Some n => match nth_error (c_nodes s) j with
+                                 | Some m => match nth_error (c_log s) y with
+                                             | Some vy => if knows m y && negb (knows n y)
+                                                          then mkC (c_log s) (set_nth i (absorb n (served m vy extra) y) (c_nodes s)) else s
+                                             | None => s end
+                                 | None => s end
+                     | None => s end) = c_log s) as Hl.
+      { destruct (nth_error (c_nodes s) i), (nth_error (c_nodes s) j), (nth_error (c_log s) y); try reflexivity.
+        destruct (knows _ _ && negb _); reflexivity. }
+      rewrite Hl, Eold in Hx. discriminate.
+Qed.
+
+Lemma run_own ops : forall s, OwnKnown s -> OwnKnown (fold_left cstep ops s).
+Proof. induction ops as [|o ops IH]; intros s H; cbn [fold_left]; [exact H|apply IH, cstep_own, H]. Qed.
+
+Lemma cinit_own n : OwnKnown (cinit n).
+Proof. intros x vx Hx. cbn in Hx. destruct x; discriminate. Qed.
+
+Definition is_pull (o : cop) : Prop := match o with Pull _ _ _ _ => True | Local _ _ => False end.
+
+(* from any state in which origins know their own versions, node i can fetch every version of a list *)
+Lemma fetch_all xs : forall s i nd,
+  OwnKnown s -> nth_error (c_nodes s) i = Some nd ->
+  (forall x, In x xs -> (x < length (c_log s))%nat) ->
+  exists pulls, Forall is_pull pulls /\
+    let s' := fold_left cstep pulls s in
+    c_log s' = c_log s /\ OwnKnown s' /\
+    exists nd', nth_error (c_nodes s') i = Some nd' /\
+                (forall y, knows nd y = true -> knows nd' y = true) /\
+                (forall x, In x xs -> knows nd' x = true).
+Proof.
+  induction xs as [|x xs IH]; intros s i nd Hown Hnd Hlt.
+  - exists []. split; [constructor|]. cbn. split; [reflexivity|]. split; [exact Hown|].
+    exists nd. split; [exact Hnd|]. split; [auto|intros x []].
+  - destruct (knows nd x) eqn:Ek.
+    + destruct (IH s i nd Hown Hnd) as [pulls [Hp [Hl [Ho [nd' [Hnd' [Hm Hall]]]]]]]; [intros y Hy; apply Hlt; right; exact Hy|].
+      exists pulls. split; [exact Hp|]. cbv zeta in *. split; [exact Hl|]. split; [exact Ho|].
+      exists nd'. split; [exact Hnd'|]. split; [exact Hm|].
+      intros y [<-|Hy]; [apply Hm, Ek|apply Hall, Hy].
+    + assert (Hx : (x < length (c_log s))%nat) by (apply Hlt; left; reflexivity).
+      destruct (nth_error (c_log s) x) as [vx|] eqn:Ex; [|apply nth_error_None in Ex; lia].
+      destruct (Hown x vx Ex) as [m [Hm Hmk]].
+      set (j := Z.to_nat (v_actor vx)) in *.
+      destruct (cluster_pull_makes_known s i j x nd m vx Hnd Hm Ex Hmk Ek) as [n1 [Hn1 [Hk1 [Hmono1 Hl1]]]].
+      set (s1 := cstep s (Pull i j x [])) in *.
+      assert (Hown1 : OwnKnown s1) by (apply cstep_own, Hown).
+      destruct (IH s1 i n1 Hown1 Hn1) as [pulls [Hp [Hl [Ho [nd' [Hnd' [Hm' Hall]]]]]]].
+      { intros y Hy. rewrite Hl1. apply Hlt. right. exact Hy. }
+      exists (Pull i j x [] :: pulls). split; [constructor; [exact I|exact Hp]|].
+      cbv zeta in *. cbn [fold_left]. fold s1. split; [rewrite Hl; exact Hl1|]. split; [exact Ho|].
+      exists nd'. split; [exact Hnd'|]. split; [intros y Hy; apply Hm', Hmono1, Hy|].
+      intros y [<-|Hy]; [apply Hm', Hk1|apply Hall, Hy].
+Qed.
+
+(* PROGRESS: from every reachable state, without any further write, every node can be brought to
+   know every acknowledged version by sessions with the versions' origins alone *)
+Theorem cluster_node_can_catch_up n ops i nd :
+  nth_error (c_nodes (crun n ops)) i = Some nd ->
+  exists pulls, Forall is_pull pulls /\
+    let s' := fold_left cstep pulls (crun n ops) in
+    c_log s' = c_log (crun n ops) /\
+    exists nd', nth_error (c_nodes s') i = Some nd' /\ knows_all (c_log s') nd' = true.
+Proof.
+  intros Hnd.
+  assert (Hown : OwnKnown (crun n ops)) by (apply run_own, cinit_own).
+  destruct (fetch_all (seq 0 (length (c_log (crun n ops)))) (crun n ops) i nd Hown Hnd) as [pulls [Hp [Hl [_ [nd' [Hnd' [_ Hall]]]]]]].
+  { intros x Hx. apply in_seq in Hx. lia. }
+  exists pulls. split; [exact Hp|]. cbv zeta in *. split; [exact Hl|].
+  exists nd'. split; [exact Hnd'|].
+  unfold knows_all. rewrite Hl. apply forallb_forall. exact Hall.
+Qed.
+
+(* safety + progress: every node of every reachable state can, by sessions alone, reach a state
+   in which it shows the merge of everything acknowledged *)
+Theorem cluster_every_node_can_converge n ops i nd :
+  let U := all_recs (c_log (crun n ops)) in
+  wf U -> no_tie U = true -> clk_unique U = true ->
+  nth_error (c_nodes (crun n ops)) i = Some nd ->
+  exists pulls, Forall is_pull pulls /\
+    let s' := crun n (ops ++ pulls) in
+    c_log s' = c_log (crun n ops) /\
+    exists nd', nth_error (c_nodes s') i = Some nd' /\
+                table (n_db nd') = table (merge_all [] U) /\ versions (n_db nd') = versions (merge_all [] U).
+Proof.
+  intros U Hwf Htie Hclk Hnd.
+  destruct (cluster_node_can_catch_up n ops i nd Hnd) as [pulls [Hp [Hl [nd' [Hnd' Hall]]]]].
+  exists pulls. split; [exact Hp|]. cbv zeta in *.
+  assert (Hrun : crun n (ops ++ pulls) = fold_left cstep pulls (crun n ops)) by (unfold crun; apply fold_left_app).
+  rewrite Hrun. split; [exact Hl|]. exists nd'. split; [exact Hnd'|].
+  rewrite <- Hrun in Hnd', Hall, Hl.
+  pose proof (cluster_quiescent_converges n (ops ++ pulls) i nd') as H. cbv zeta in H.
+  unfold U. rewrite <- Hl. apply H; try assumption; rewrite Hl; assumption.
+Qed.
